@@ -287,7 +287,7 @@ func vK01a() {
 func vK01aScript() {
 	word := "</script"
 	var data []uint16
-	pre := hLen(0, 1)
+	pre := hLen(0, vParam("FREE", 0))
 	for i := 0; i < pre; i++ {
 		data = append(data, vU16())
 	}
@@ -299,7 +299,7 @@ func vK01aScript() {
 		}
 		data = append(data, c)
 	}
-	post := hLen(0, 1)
+	post := hLen(0, vParam("FREE", 0))
 	for i := 0; i < post; i++ {
 		data = append(data, vU16())
 	}
